@@ -184,6 +184,16 @@ pub fn main(args: &[String]) -> i32 {
                     if let Err(p) = r {
                         return (0, Vec::new(), Some(json!({"what": "panic in the mania difficulty calculation", "label": format!("{label} + {extra}"), "panic": p, "osu_text": texts[i].1})));
                     }
+                    // the gradual calculator rewrites the map on its own: it must arrive at the same list
+                    rosu_pp::verif::trace::start();
+                    let _ = guarded(|| rosu_pp::mania::ManiaGradualDifficulty::new(rosu_pp::Difficulty::new().mods(cfg.game_mods()), &map).map(|g| g.len()));
+                    let raw3 = rosu_pp::verif::trace::take();
+                    let list_of = |evs: &[String], tag: &str| evs.iter().find(|e| e.contains(tag)).and_then(|e| e.split("\"objects\":").nth(1).map(str::to_string));
+                    let (one, grad) = (list_of(&raw2, "mania_difficulty_objects"), list_of(&raw3, "mania_gradual_objects"));
+                    if one != grad {
+                        return (0, Vec::new(), Some(json!({"what": "one-shot and gradual mania calculators work on different object lists", "label": format!("{label} + {extra}"),
+                            "expected": one.map(|x| x.chars().take(600).collect::<String>()), "observed": grad.map(|x| x.chars().take(600).collect::<String>()), "osu_text": texts[i].1})));
+                    }
                     for e in raw2.iter().filter(|e| e.contains("mania_difficulty_objects")) {
                         let v: Value = serde_json::from_str(e).expect("hook event is JSON");
                         let cs = v["cs"].as_f64().unwrap_or(1.0);
